@@ -205,6 +205,15 @@ func tokenPrefix(out string, id, n int) (string, bool) {
 
 func RunC12(env *sim.Env) {
 	t := env.Tape
+	if t.Choose(40) == 39 {
+		// a long-lived process: 66 000 templates have been parsed before this one (an index that wraps, a
+		// table that is never pruned)
+		fl, _ := NewSet(map[string]string{})
+		for i := 0; i < 66000; i++ {
+			fl.Parse(fmt.Sprintf("/flood/p%d.jet", i), "x")
+		}
+		env.Stat("probe:sixty_six_thousand_templates_parsed_before", 1)
+	}
 	opts := gen.SwarmOptions(t)
 	opts.Sites, opts.Probes, opts.ProbeExpr, opts.Dump = true, true, false, false
 	world := gen.GenWorld(t, opts)
